@@ -110,7 +110,8 @@ def rand_case(rng, n_files=None):
     return {"name": rng.choice(["dep-1", "my.dep", "d_2", "Dep", "dep-1", "my lib", "d\u00e9p", "a+b", "at@sign,x"]), "version": rng.choice(["1.0", "2.10.3", "0.1", "1.0+build.5", "1!2.0"]),
             "scripts": scripts, "sheets": sheets, "source_kind": rng.choice(["abs", "abs", "abs", "rel", "rel", "pkg", "pkg", "pkg_libtest", "url", "url_slash", "none", "url_root", "url_protocol_relative", "url_slashes", "url_relative", "url_dot"]),
             "all_files": rng.random() < 0.25, "libdir": rng.choice(["lib", "lib", None, "a/b", "lib x"]), "include_version": rng.random() < 0.6,
-            **({"page_subdir": rng.choice(["pages", "posts/2024", "p q"]), "libdir": rng.choice(["../lib", "../site_libs", "lib", "./lib"])} if rng.random() < 0.2 else {}),
+            **({"page_subdir": rng.choice(["pages", "posts/2024", "p q"]), "libdir": rng.choice(["../lib", "../site_libs", "lib", "./lib", "ABSOLUTE"])} if rng.random() < 0.2 else
+               {"libdir": "ABSOLUTE"} if rng.random() < 0.05 else {}),
             "prepopulate": rng.random() < 0.5, "prepopulate_same_names": rng.random() < 0.5, "copied_before": rng.random() < 0.4, "positional_args": rng.random() < 0.4,
             "via": rng.choice(["document", "tag", "list", "copy_to"]), "missing": []}
 
@@ -233,6 +234,11 @@ def _run_case(ctx, case, scratch, dep, srcdir, scripts, sheets, wit):
     # the page may sit in a sub-directory of the site, with the library directory given relative to the PAGE ("../lib")
     page_dir = os.path.join(out, case["page_subdir"]) if case.get("page_subdir") else out
     os.makedirs(page_dir, exist_ok=True)
+    if libdir == "ABSOLUTE":
+        # an absolute library directory (inside the site tree, so that the snapshots see it): URLs carry the absolute path
+        libdir = os.path.join(out, "absolute lib dir")
+        case = dict(case, libdir=libdir)
+        wit = dict(wit, libdir_resolved="<out>/absolute lib dir")
     destdir = os.path.normpath(os.path.join(page_dir, libdir)) if libdir else page_dir
     target = os.path.join(destdir, depdir)
     if case["prepopulate"]:
